@@ -104,6 +104,8 @@ def seed_int(seed, label, lo, hi):
 
 
 def _jsonable(x):
+    if callable(x):            # lazy case: materialise only when it is sampled or reported
+        return _jsonable(x())
     if isinstance(x, (bytes, bytearray)):
         return x.hex()
     if isinstance(x, dict):
